@@ -15,18 +15,27 @@ import string
 import common as C
 
 PID = "C05"
-DRIVER = [("C05", "TfPwaV.Model.Einsum", "Einsum.handle")]
-LEAN_TARGETS = ["TfPwaV.Props.C05"]
-PROP_MODULES = ["TfPwaV.Props.C05"]
-ALL_MODULES = ["TfPwaV.Model.Einsum", "TfPwaV.Proofs.Einsum", "TfPwaV.Proofs.EinsumStep", "TfPwaV.Proofs.EinsumOrder", "TfPwaV.Proofs.EinsumLoop", "TfPwaV.Props.C05"]
+DRIVER = [("C05", "TfPwaV.Model.Einsum", "Einsum.handle"), ("C05f", "TfPwaV.Model.Factorise", "Factorise.handle")]
+LEAN_TARGETS = ["TfPwaV.Props.C05", "TfPwaV.Props.C05b"]
+PROP_MODULES = ["TfPwaV.Props.C05", "TfPwaV.Props.C05b"]
+ALL_MODULES = ["TfPwaV.Model.Einsum", "TfPwaV.Proofs.Einsum", "TfPwaV.Proofs.EinsumStep", "TfPwaV.Proofs.EinsumOrder", "TfPwaV.Proofs.EinsumLoop", "TfPwaV.Props.C05",
+               "TfPwaV.Proofs.EinsumBcast", "TfPwaV.Proofs.EinsumLoopB", "TfPwaV.Proofs.EinsumWrap", "TfPwaV.Proofs.EinsumFull", "TfPwaV.Proofs.EinsumEnd", "TfPwaV.Proofs.EinsumSizes", "TfPwaV.Props.C05b"]
 ASSUMPTIONS = [
     "einsum: the contraction path returned by opt_einsum.contract_path is an INPUT of the model (any sequence of position tuples); opt_einsum's own validation of the expression is modelled by `validate` (rank, size consistency with size-1 broadcasting, output labels)",
     "einsum: TensorFlow kernels tf.transpose / tf.reshape / broadcasting `*` / tf.reduce_sum / tf.einsum are taken as their array semantics (row-major reshape, numpy broadcasting); validated by the exact correspondence on integer-valued float64 / complex128 operands",
     "einsum: the iteration order of the Python set `combined_index` inside ordered_indices (string-hash dependent) is observed by the harness in the same process and passed to the model (procOrder); when two labels of one contraction step get the same order value the model yields `tie` (no value defined) — on the unfixed tree this is known finding einsum:order-tie, on the fixed tree ordered_indices is strict and `tie` is unreachable (theorem rankFixed_injective)",
-    "einsum theorems (step, early contraction, induction over the path) are stated for operands whose dimensions equal the label sizes (no size-1 broadcasting of a label that is larger in another operand); broadcasting cases, the ellipsis replacement, the removal of size-1 axes before the loop and the final reshape (the wrapper around the proved loop) are covered by the exact correspondence + search only (einsum_correct_partial; full statement kept in Props/C05.lean)",
+    "einsum_correct (Props/C05b.lean) covers the complete routine - ellipsis replacement, remove_size1, numpy-style size-1 broadcasting, the pairwise loop over ANY path, the final reshape - under three explicit hypotheses: (i) no operand repeats a label (otherwise the step is delegated to tf.einsum: einsum_repeated_index_delegates), (ii) consistent shapes: every axis has the size of its label or size 1, all dimensions positive (an empty tensor, dimension 0, is outside the theorem), every label full somewhere (einsum_consistent_assignment derives this from any assignment), (iii) the path is valid: non-empty, it reduces the operands to one, and the order values of the output labels increase along the output (einsum_path_ends_at_output / einsum_correct_reducing_path); (iii-b) is a statement about IEEE doubles computed by ordered_indices - Lean's Float is opaque - and is validated on every program: ordered_indices bit-for-bit against the model plus a direct monotonicity check; the harness counts how many of its programs lie inside the hypotheses (model op `hyp`, a decidable transcription of (i)-(iii) that is itself not proved equivalent to the Lean hypotheses)",
+    "einsum: operands whose ellipses have different ranks are rejected by the routine (validate), so `...` is a plain substitution by fresh labels (replace_ellipsis_fresh: they cannot clash); the reference semantics for `...` is that substitution",
     "strategies (kind R): tf.function / XLA compilation, the LazyCall tf.data pipeline, preprocessor wiring and the id()-based cache switch of AbsPDF.__call__ are runtime behaviour of TensorFlow: validated on the config zoo with tolerances 1e-10 (density) / 1e-8 (NLL, gradient), not proved",
     "cached-integral / cached-amplitude likelihood models are compared with the default model with all masses and widths fixed (their documented domain)",
 ]
+
+import c05_factor as CF  # part B: factorised / cached strategies as algebra (Model/Factorise.lean, Props/C05c.lean)
+assert CF.DRIVER_ENTRY in DRIVER
+LEAN_TARGETS = LEAN_TARGETS + CF.LEAN_TARGETS_EXTRA
+PROP_MODULES = PROP_MODULES + CF.PROP_MODULES_EXTRA
+ALL_MODULES = ALL_MODULES + CF.ALL_MODULES_EXTRA
+ASSUMPTIONS = ASSUMPTIONS + CF.ASSUMPTIONS_EXTRA
 
 TF_LIMITS = ("UnimplementedError", "ResourceExhaustedError")  # runtime limits of TensorFlow kernels, not of the routine
 LOWER = string.ascii_lowercase
@@ -508,7 +517,33 @@ def correspond_einsum(ctx, res):
         c = cases[i]
         ins, out = enc_expr(c.expr2)
         lines.append("C05 ord %s %s %s %s" % ("1" if variant == "B" else "0", ins, out, enc_nats(ord(ch) for ch in c.proc)))
-    ans = ctx.model.query(lines)
+    # which programs lie inside the hypotheses of C05b.einsum_correct (decidable form `hypCheck` of the model)
+    n_main = len(lines)
+    lines += [model_line(c, variant).replace("C05 ein ", "C05 hyp ", 1) for c in cases]
+    ans_all = ctx.model.query(lines)
+    ans = ans_all[:n_main]
+    hyp_ans = ans_all[n_main:]
+    hyp_hist = {}
+    hyp_in_ok = 0
+    hyp_dis = []
+    for c, a, hans in zip(cases, ans[:len(cases)], hyp_ans):
+        hyp_hist[hans] = hyp_hist.get(hans, 0) + 1
+        if hans == "in" and c.impl[0] == "ok":
+            hyp_in_ok += 1
+        if hans == "out:final-order" and a.startswith("ok"):
+            # the model returns a tensor although the last operand is not laid out along the output labels: the order
+            # values of the output labels do not increase along the output (hypothesis `hend` of einsum_correct)
+            hyp_dis.append((c, hans))
+    # the order values of the output labels must increase along the output (what makes every reducing path end at
+    # the output layout): checked on the real ordered_indices of every program that reaches it
+    mono_bad = []
+    for c in cases:
+        if c.real_order is None or c.expr2 is None:
+            continue
+        outl = c.expr2.split("->")[1]
+        vals = [c.real_order[ch] for ch in outl]
+        if any(not (vals[i] < vals[i + 1]) for i in range(len(vals) - 1)):
+            mono_bad.append((c, vals))
     n_ok = n_raise = n_tie = n_tflimit = 0
     dis = []
     shapes_seen = set()
@@ -562,7 +597,19 @@ def correspond_einsum(ctx, res):
         "einsum_model_ok": n_ok, "einsum_impl_raises": n_raise, "einsum_model_tie_skipped": n_tie, "einsum_impl_declines_tf_kernel_limit": n_tflimit,
         "einsum_ordered_indices_compared": n_ord,
         "einsum_disagreements": len(dis) + len(ord_dis),
+        "einsum_programs_inside_einsum_correct_hypotheses": hyp_hist.get("in", 0),
+        "einsum_programs_inside_hypotheses_and_impl_returns": hyp_in_ok,
+        "einsum_hypotheses_histogram": dict(sorted(hyp_hist.items())),
+        "einsum_output_order_monotone_violations": len(mono_bad),
     })
+    if mono_bad:
+        c, vals = mono_bad[0]
+        res.broke("ordered_indices: order values of the output labels do not increase along the output (hypothesis of einsum_correct)",
+                  {"expr2": c.expr2, "values": [float(v) for v in vals], "n": len(mono_bad), "case": c.payload()})
+    if hyp_dis:
+        c, hans = hyp_dis[0]
+        res.broke("einsum: the loop ends with an operand that is not laid out along the output labels, yet a tensor is returned",
+                  {"expr": c.expr, "shapes": [list(o.shape) for o in c.ops], "path": c.path, "n": len(hyp_dis), "case": c.payload()})
     for c in cases[:2] + cases[len(cases) // 2:len(cases) // 2 + 2]:
         res.samples.append({"expr": c.expr, "shapes": [list(o.shape) for o in c.ops], "path": c.path, "impl": c.impl[0], "origin": c.origin})
     for c, m, i in dis[1:6]:
@@ -952,11 +999,13 @@ def replay_wrapfun(r):
 
 def correspond(ctx, res):
     correspond_einsum(ctx, res)
+    CF.correspond_factor(ctx, res)
 
 
 def search(ctx, res):
     search_einsum(ctx, res)
     search_strategies(ctx, res)
+    CF.search_factor(ctx, res)
 
 
 def replay(ctx, payload):
@@ -967,6 +1016,8 @@ def replay(ctx, payload):
         return replay_strategy(ctx, r)
     if r.get("kind") == "wrapfun":
         return replay_wrapfun(r)
+    if r.get("kind") == "factor":
+        return CF.replay_factor(ctx, r, payload.get("key"))
     if payload.get("key") is None:
         print("replay file names a broken obligation, not a failing input: %s" % str(payload.get("broken"))[:3000])
         return 1
@@ -974,7 +1025,7 @@ def replay(ctx, payload):
 
 
 MANIFEST = {
-    "text": "Lean theorems about an executable, step-by-step model of tf_pwa/einsum.py over an arbitrary commutative semiring: (1) einsum_step_correct - whenever one call of tensor_einsum_reduce_sum (transpose to the sorted index order, reshape with 1's, broadcast product, reduce_sum) returns a tensor, for ANY number of operands, index lists, sizes and data, that tensor is the reference contraction (sum over the non-output indices of the product of entries) of its sub-expression; (2) einsum_contract_early / einsum_loop_correct - contracting a group of operands early while keeping exactly the indices needed later preserves the reference value, hence by induction over ANY contraction path the pairwise loop returns the reference contraction or declines; (3) the routine declines (never returns a tensor) on invalid expressions and when two indices of a step have the same order value, and with the strict ranking of the fixed ordered_indices such a tie is impossible for every list of double values. The model (including ordered_indices in IEEE doubles, replace_ellipsis, remove_size1, the opt_einsum path as an input) is tied to the code by exact comparison on integer-valued float64/complex128 operands over every expression the amplitude builder emits for a zoo of decay structures plus seeded random expressions, and tf_pwa.einsum.einsum is compared with numpy.einsum directly. Every data: strategy (cached_amp, cached_shape, base_factor, cached_angle, p4_directly, lazy_call, use_tf_function, jit_compile, no_id_cached, cached_int / cached_amp / cfit cached likelihoods) is compared with plain eager evaluation on the zoo (1e-10 densities, 1e-8 NLL and gradient).",
-    "note": "Proved for all inputs: the einsum step, the early-contraction identity and the path induction (for operands whose dimensions equal the index sizes; numpy-style size-1 broadcasting of an index, the ellipsis replacement and the size-1 axis removal around the loop are covered by the exact correspondence only). Validated, not proved (kind R): tf.function / XLA equals eager, the LazyCall pipeline, preprocessors, the id()-based cache switch, the cached-integral and cached-amplitude likelihoods - runtime behaviour of TensorFlow, checked on a zoo of five 3-body structures (spin 0, 1/2, 1, 3/2, 2; two of them with parity-violating decays and events of both charges, once with cp_trans False = helicity flip inside the amplitude and once with cp_trans True = parity-transformed momenta), with non-trivial per-event extras everywhere a strategy could drop them (event weights, background sample, charge_conjugation, eff_value / bg_value); per-charge residuals are recorded in the evidence. Known findings reproduced on every run until their patches land: einsum order ties (wrong tensor, hash-seed dependent), Model_cfit_cached ignoring the efficiency in the normalisation integral, WrapFun cache key. Trusted: Lean kernel, standard axioms, the harness, opt_einsum paths as inputs.",
-    "technique": "Lean 4 proof (finite-sum algebra over a commutative semiring, induction over operand lists and contraction paths, row-major layout lemmas) + exact differential correspondence with the implementation on integer tensors + direct oracle search (numpy.einsum; eager evaluation for the strategies)",
+    "text": "Lean theorems about an executable, step-by-step model of tf_pwa/einsum.py over an arbitrary commutative semiring. FULL routine (Props/C05b.lean): einsum_correct - for every expression (ellipsis included), every list of operands whose shapes are consistent up to numpy-style size-1 broadcasting, every contraction path that reduces the operands to one, both variants of ordered_indices: whenever einsum(expr, *args) returns a tensor it IS the reference contraction (sum over the non-output indices of the product of entries), same shape and same row-major data. Its ingredients, each for all inputs: einsum_step_correct(_bcast) - one call of tensor_einsum_reduce_sum (transpose, reshape with 1's, broadcast product, reduce_sum) equals the reference of its sub-expression, also when an index has dimension 1 in one operand and n in another; einsum_contract_early / einsum_loop_correct(_bcast) - induction over ANY path; einsum_remove_size1_reindex + einsum_removed_labels_have_size1 - remove_size1 and the final reshape are a re-indexing; replace_ellipsis_fresh - the substituted symbols cannot clash; einsum_consistent_assignment - the routine's size_map recovers every consistent size assignment; einsum_path_ends_at_output - a non-empty reducing path ends at the output layout when the order values increase along the output labels; declining cases: invalid expressions, order ties (impossible with the strict ranking: einsum_fixed_order_never_ties), a repeated index inside an operand is delegated to tf.einsum, never mis-computed (einsum_repeated_index_delegates). Factorised / cached strategies as algebra (Model/Factorise.lean, Props/C05c.lean, any commutative ring with conjugation, any sizes): params_vector_row_major, cached_eq_direct (+ helicity sum), factor_eq_direct / factor_total_eq_direct / factor_eq_cached - the cached_amp / base_factor forms equal the direct multilinear expression sum_chains prod_decays (sum_ls g_ls part_ls); cached_int_eq_direct - the cached integral sum_ab p_a conj(p_b) M_ab equals sum_events w |A|^2 GIVEN the cached tensors do not depend on the varied parameters (explicit hypothesis = fixed line-shape parameters; counterexample without it), cached_int_self_conjugate, int_matrix_entry_batch_additive. The models are tied to the code by exact comparison on integer-valued float64/complex128 tensors: einsum over every expression the amplitude builder emits for a zoo of decay structures plus seeded random expressions (ordered_indices bit-for-bit in IEEE doubles), build_params_vector / build_angle_amp_matrix / cached_amp / build_amp2s / FactorAmplitudeModel.get_amp_list / build_int_matrix / cached_int_mc / ModelCachedInt driven on a stub decay group; tf_pwa.einsum.einsum is compared with numpy.einsum directly and the cached functions with a numpy evaluation of the direct expressions. Every data: strategy (cached_amp, cached_shape, base_factor, cached_angle, p4_directly, lazy_call, use_tf_function, jit_compile, no_id_cached, cached_int / cached_amp / cfit cached likelihoods) is compared with plain eager evaluation on the zoo (1e-10 densities, 1e-8 NLL and gradient).",
+    "note": "Proved for all inputs: the complete einsum routine (hypotheses: no repeated index inside an operand; consistent positive shapes; valid path), the algebra of the cached / factorised amplitude and of the cached integral. Still validated only: (einsum) that the order values of ordered_indices increase along the output indices - a fact about IEEE doubles, Lean's Float is opaque - checked bit-for-bit and by a direct monotonicity test on every program; empty tensors (a dimension 0); that opt_einsum's path reduces the operands to one; TensorFlow kernels as array semantics. (strategies) the list model of Factorise.lean against TensorFlow reshape / broadcasting is validated by exact correspondence on a stub decay group; that the real DecayGroup serves tensors with the documented axes, the preprocessors' wiring, factorAmp additivity over inner helicities; tf.function / XLA equals eager, the LazyCall pipeline, the id()-based cache switch, the cached-integral and cached-amplitude likelihood objects - runtime behaviour of TensorFlow, checked on a zoo of five 3-body structures (spin 0, 1/2, 1, 3/2, 2; two of them with parity-violating decays and events of both charges, once with cp_trans False = helicity flip inside the amplitude and once with cp_trans True = parity-transformed momenta), with non-trivial per-event extras everywhere a strategy could drop them (event weights, background sample, charge_conjugation, eff_value / bg_value); per-charge residuals are recorded in the evidence. Known findings reproduced on every run until their patches land: einsum order ties (wrong tensor, hash-seed dependent), Model_cfit_cached ignoring the efficiency in the normalisation integral, WrapFun cache key. Trusted: Lean kernel, standard axioms, the harness, opt_einsum paths as inputs.",
+    "technique": "Lean 4 proof (finite-sum algebra over a commutative semiring / ring with conjugation, induction over operand lists and contraction paths, row-major layout and re-indexing lemmas, fold invariants for size_map) + exact differential correspondence with the implementation on integer tensors (einsum; cached / factorised builders on a stub decay group) + direct oracle search (numpy.einsum; numpy evaluation of the direct multilinear expression; eager evaluation for the strategies)",
 }
